@@ -1661,7 +1661,7 @@ func (pc *PeerConnection) startRTPReceivers(remoteDesc *SessionDescription, curr
 				Direction: RTPTransceiverDirectionSendrecv,
 			})
 			if err != nil {
-				pc.log.Warnf("Could not add transceiver for remote SSRC %d: %s", incomingTrack.ssrcs[0], err)
+				pc.log.Warnf("Could not add transceiver for remote track %s (SSRCs %v): %s", incomingTrack.id, incomingTrack.ssrcs, err)
 
 				continue
 			}
